@@ -10,7 +10,7 @@ NOTE_COMMON = ('Trusted: z3 5.1.0, the symx value classes/numpy facade (validate
 
 CHECKS = {
  'C02': dict(
-   text='Partial (assembly, kernel formula, Gauss exactness; the quadrature-accuracy clause is outside). The real matrix fill runs on concrete catalogue geometries (2x/3x segment counts, free space and ground, junctions of every end combination, tapered wire, arc, helix, leaning grounded wires) with every numerical integral replaced by an unknown complex number identified only by what the integral depends on; for every pair of pulses at least 2.5 segments apart z3 decides for ALL values of those unknowns (given additivity of an integral over its halves) that the entry is the published MININEC-3 combination written from pulse geometry alone, incl. the image term and its omission for pulses on the ground plane. A structural difference is replayed on the real code against adaptive quadrature with the 1e-4 tolerance of the property. The kernel clause evaluates the element under test alone and in a batch with a wire of the other radius class. The code's own switches of the fill shortcut run on ARBITRARY segment directions and lengths: a grounded pulse whose direction has any horizontal component is never treated as vertical, and "same direction" / "same length" is only answered for equal segments (one-sided; candidates replayed at the level of the sentence of the property).',
+   text='Partial (assembly, kernel formula, Gauss exactness; the quadrature-accuracy clause is outside). The real matrix fill runs on concrete catalogue geometries (2x/3x segment counts, free space and ground, junctions of every end combination, tapered wire, arc, helix, leaning grounded wires) with every numerical integral replaced by an unknown complex number identified only by what the integral depends on; for every pair of pulses at least 2.5 segments apart z3 decides for ALL values of those unknowns (given additivity of an integral over its halves) that the entry is the published MININEC-3 combination written from pulse geometry alone, incl. the image term and its omission for pulses on the ground plane. A structural difference is replayed on the real code against adaptive quadrature with the 1e-4 tolerance of the property. The kernel clause evaluates the element under test alone and in a batch with a wire of the other radius class. The switches of the fill shortcut in the code itself run on ARBITRARY segment directions and lengths: a grounded pulse whose direction has any horizontal component is never treated as vertical, and "same direction" / "same length" is only answered for equal segments (one-sided; candidates replayed at the level of the sentence of the property).',
    design='DESIGN.md 3 (C02), 9',
    technique='symbolic execution of the real matrix fill with the numerical integration abstracted to uninterpreted integral-atoms (linear forms over atoms, z3 LRA decides equality with the reference for all atom values); Gauss exactness in LRA on symbolic polynomial coefficients; kernel formula by congruence over uninterpreted exp/sqrt; candidates replayed numerically on the untouched package'),
  'C03': dict(
